@@ -15,7 +15,8 @@ use zkabacus_crypto as za;
 
 pub struct C02;
 
-pub const VARIANTS: [&str; 37] = [
+pub const VARIANTS: [&str; 38] = [
+    "extra-digit-proofs",
     "fabricated-digit-signature",
     "compensating-shift-customer",
     "compensating-shift-merchant",
@@ -231,7 +232,7 @@ pub fn run_case(o: &mut Outcome, case: &Value) {
     let cust = case["cust"].as_u64().unwrap_or(500);
     let merch = case["merch"].as_u64().unwrap_or(40);
     let history = case["history"].as_u64().unwrap_or(0);
-    let template = pay_template(7, mspec);
+    let mut template = pay_template(7, mspec);
     let mut rc = establish_raw(m, seed, cust, merch, &mut s, o);
 
     // vary the history with honest raw payments; the last one is also the accept-the-truth control
@@ -376,6 +377,69 @@ pub fn run_case(o: &mut Outcome, case: &Value) {
         "all-maximal-digits" => {
             knobs.cust_digits_msg = Some(vec![127; ndig]);
             knobs.cust_sig_of = Some(vec![127; ndig]);
+        }
+        "extra-digit-proofs" => {
+            // if the wire format lets the prover choose how many digit proofs a range constraint
+            // has (a length prefix instead of a fixed array), use 37 digits: enough for q - k
+            let lp = "customer_balance_proof.digit_proofs.#len";
+            if template.find(lp).is_none() {
+                o.bump("probe.digit_count_fixed_by_wire_format");
+                return;
+            }
+            let want = 37usize;
+            let mut bytes = template.bytes.clone();
+            // extend the later constraint first so that earlier offsets stay valid
+            for name in ["merchant_balance_proof", "customer_balance_proof"] {
+                let lenp = format!("{}.digit_proofs.#len", name);
+                let li = match template.find(&lenp) {
+                    Some(i) => i,
+                    None => return,
+                };
+                let last = format!("{}.digit_proofs[{}]", name, ndig - 1);
+                let idx: Vec<usize> = (0..template.atoms.len()).filter(|&i| template.atoms[i].path.starts_with(&last)).collect();
+                let (a0, a1) = (template.atoms[idx[0]].off, template.atoms[*idx.last().unwrap()].off + template.atoms[*idx.last().unwrap()].len);
+                let block = template.bytes[a0..a1].to_vec();
+                let tail = bytes.split_off(a1);
+                for _ in ndig..want {
+                    bytes.extend_from_slice(&block);
+                }
+                bytes.extend_from_slice(&tail);
+                let lo = template.atoms[li].off;
+                bytes[lo..lo + 8].copy_from_slice(&(want as u64).to_le_bytes());
+            }
+            let extended: za::PayProof = match bincode::deserialize(&bytes) {
+                Ok(p) => p,
+                Err(_) => {
+                    o.bump("probe.extended_pay_proof_does_not_decode");
+                    return;
+                }
+            };
+            template = crate::atoms::trace(&extended);
+            let over = rc.cust as i128 + 1 + s.below(1000) as i128;
+            present_amount = over.min(i64::MAX as i128) as i64;
+            let k = (over - rc.cust as i128) as u64;
+            let neg = q_minus(k);
+            h.new_st[3] = neg;
+            h.new_cl[3] = neg;
+            h.new_st[4] = refc::int_scalar(rc.merch as i128 + over);
+            h.new_cl[4] = h.new_st[4];
+            h.digits = want;
+            h.merch_range_value = ((rc.merch as i128 + over) as u128) & (i64::MAX as u128);
+            // base-128 digits of the 255-bit integer q - k
+            let nb = neg.to_bytes();
+            let mut dg = vec![0u64; want];
+            for (j, d) in dg.iter_mut().enumerate() {
+                let mut v = 0u64;
+                for b in 0..7 {
+                    let bit = 7 * j + b;
+                    if bit < 256 && (nb[bit / 8] >> (bit % 8)) & 1 == 1 {
+                        v |= 1 << b;
+                    }
+                }
+                *d = v;
+            }
+            knobs.cust_digits_msg = Some(dg.clone());
+            knobs.cust_sig_of = Some(dg);
         }
         "fabricated-digit-signature" => {
             // if two published digit signatures share their base point, sigma2(b) - sigma2(a) is
@@ -752,7 +816,7 @@ impl Prop for C02 {
         v
     }
     fn rule(&self) -> String {
-        "one case = one Byzantine customer session against the real merchant: raw establishment (so the actor knows every scalar), 0-2 honest raw payments to vary the history, one more honest raw payment as accept-the-truth control (closing signature must be on old-balance -/+ amount, a foreign revocation pair must be refused and the right one must complete it), then one variant of the false pay statement: wrong nonce, wrong amount on either balance, negative / above-range balance, foreign channel id, close tag replaced, old-lock commitment to another lock (linked and unlinked), new lock mismatch, token of another key / tampered / on a different state, digit signature for another digit, digits permuted, all-maximal digits, a digit signature fabricated from two published ones that share a base point (when the parameters allow it), close balance mismatch, sign-flipped amount; or post-challenge choice (probe -> hook -> adapt -> resubmit, up to three rounds) of the revealed nonce scalar (twice on one token: double spend), the close-tag scalar, T of the state / close / lock proof, C of the state / close proof, T of a digit proof (overspend). Distinct = distinct (variant, balances, amount, history, seed); non-trivial = an attack was run".into()
+        "one case = one Byzantine customer session against the real merchant: raw establishment (so the actor knows every scalar), 0-2 honest raw payments to vary the history, one more honest raw payment as accept-the-truth control (closing signature must be on old-balance -/+ amount, a foreign revocation pair must be refused and the right one must complete it), then one variant of the false pay statement: wrong nonce, wrong amount on either balance, negative / above-range balance, foreign channel id, close tag replaced, old-lock commitment to another lock (linked and unlinked), new lock mismatch, token of another key / tampered / on a different state, digit signature for another digit, digits permuted, all-maximal digits, a digit signature fabricated from two published ones that share a base point (when the parameters allow it), 37 digit proofs instead of 9 (when the wire format has a length prefix there), close balance mismatch, sign-flipped amount; or post-challenge choice (probe -> hook -> adapt -> resubmit, up to three rounds) of the revealed nonce scalar (twice on one token: double spend), the close-tag scalar, T of the state / close / lock proof, C of the state / close proof, T of a digit proof (overspend). Distinct = distinct (variant, balances, amount, history, seed); non-trivial = an attack was run".into()
     }
     fn assumptions(&self) -> Vec<String> {
         vec![
